@@ -102,7 +102,7 @@ func extractHead(toks []htmlTok) headFacts {
 }
 
 func runC11(res *Result, tier string, seed int64, replay string) {
-	res.Rule = "documents = seeded grammar documents biased to unusual explicit column widths (percent with decimals, pixels), groups with pixel / percentage / default widths, web fonts on every font-bearing component (stacks naming several mapped fonts, mj-font declarations, used and unused), feature components (accordion, navbar with and without hamburger, carousel, fluid-on-mobile images) + every fixture; the real output is tokenised by the Lean lexer with attribute parsing (driver `tags`); oracle: (a) every mj-column-per/px class on a body element has a rule in BOTH head blocks whose width is the one the class name encodes, and every rule is used; (b) accordion / navbar / carousel / fluid-image head CSS present exactly when such a component is rendered, carousel ids in head = ids in body; (c) every mapped web font or mj-font a body font-family stack resolves to is imported, no unreferenced built-in font is imported. Non-trivial = document with ≥2 distinct column classes or ≥1 feature component; distinct by source"
+	res.Rule = "documents = seeded grammar documents biased to unusual explicit column widths (percent with decimals, pixels), groups with pixel / percentage / default widths, web fonts on every font-bearing component (stacks naming several mapped fonts, mj-font declarations, used and unused; declared names that contain, are contained in, or differ in case from a built-in family the body uses), feature components (accordion, navbar with and without hamburger, carousel, fluid-on-mobile images) + every fixture; the real output is tokenised by the Lean lexer with attribute parsing (driver `tags`); oracle: (a) every mj-column-per/px class on a body element has a rule in BOTH head blocks whose width is the one the class name encodes, and every rule is used; (b) accordion / navbar / carousel / fluid-image head CSS present exactly when such a component is rendered, carousel ids in head = ids in body; (c) every mapped web font or mj-font a body font-family stack resolves to is imported, no unreferenced built-in font is imported. Non-trivial = document with ≥2 distinct column classes or ≥1 feature component; distinct by source"
 	drv, err := startDriverPool(8)
 	if err != nil {
 		res.Disagree(Violation{Sig: "driver-missing", What: err.Error()})
@@ -180,6 +180,17 @@ func runC11(res *Result, tier string, seed int64, replay string) {
 				`<mj-social font-family="Montserrat"><mj-social-element name="facebook" href="h">F</mj-social-element></mj-social>`,
 				`<mj-accordion><mj-accordion-element font-family="Open Sans"><mj-accordion-title>T</mj-accordion-title><mj-accordion-text>X</mj-accordion-text></mj-accordion-element></mj-accordion>`} {
 				docs = append(docs, doc{fmt.Sprintf("font-in-%s/%d", pn, fi), "<mjml><mj-body><mj-section><mj-column><mj-image src=\"i.png\"/></mj-column></mj-section>" + p[0] + leaf + p[1] + "</mj-body></mjml>"})
+			}
+		}
+		// mj-font declarations next to built-in fonts: a declared name that CONTAINS a built-in family name (Roboto Slab, Open Sans
+		// Condensed, My Lato), is contained in one, or differs in letter case, with the body using the plain built-in family, the
+		// declared family, or both — the built-in font the body refers to must still be imported
+		for bi, b := range []string{"Roboto", "Lato", "Open Sans", "Ubuntu", "Montserrat", "Droid Sans"} {
+			for di, decl := range []string{b + " Slab", "My " + b, b + " Condensed Light", strings.ToUpper(b) + " X", "Raleway", b[:len(b)-1]} {
+				for ui, use := range []string{b + ", sans-serif", decl + ", serif", decl + ", " + b} {
+					docs = append(docs, doc{fmt.Sprintf("mj-font/%d/%d/%d", bi, di, ui),
+						`<mjml><mj-head><mj-font name="` + decl + `" href="https://fonts.example.com/css?family=x` + fmt.Sprint(bi, di) + `"/></mj-head><mj-body><mj-section><mj-column><mj-text font-family="` + use + `">t</mj-text><mj-button href="u" font-family="` + b + `">b</mj-button></mj-column></mj-section></mj-body></mjml>`})
+				}
 			}
 		}
 		// every component with every one of its attributes set (one at a time; pairs at the thorough tier): classes, ids, fonts and
